@@ -419,3 +419,48 @@ func dependsOn(v, target ssa.Value) bool {
 	}
 	return f(v)
 }
+
+// retVals returns the values a Return yields, looking through the locals go/ssa introduces
+// for named results and for functions with defers (`*t3 = v; rundefers; t9 = *t3; return t9`).
+func retVals(ret *ssa.Return) []ssa.Value {
+	out := make([]ssa.Value, len(ret.Results))
+	for i, v := range ret.Results {
+		out[i] = v
+		ld, ok := v.(*ssa.UnOp)
+		if !ok || ld.Op != token.MUL {
+			continue
+		}
+		al, ok := ld.X.(*ssa.Alloc)
+		if !ok {
+			continue
+		}
+		// last store in the same block before the load
+		var last *ssa.Store
+		for _, ins := range ret.Block().Instrs {
+			if ins == ssa.Instruction(ld) {
+				break
+			}
+			if st, ok := ins.(*ssa.Store); ok && st.Addr == ssa.Value(al) {
+				last = st
+			}
+		}
+		if last != nil {
+			out[i] = last.Val
+			continue
+		}
+		// a unique store that dominates the return
+		var cand []*ssa.Store
+		for _, st := range storesTo(al) {
+			if st.Parent() == ret.Parent() {
+				cand = append(cand, st)
+			} else {
+				cand = nil
+				break
+			}
+		}
+		if len(cand) == 1 && cand[0].Block().Dominates(ret.Block()) {
+			out[i] = cand[0].Val
+		}
+	}
+	return out
+}
